@@ -353,6 +353,8 @@ def lifespan_app(events, startup_delay=0.0, startup="complete", shutdown="comple
                 mark("startup.complete sent")
             elif startup == "failed":
                 await send({"type": "lifespan.startup.failed", "message": "no"})
+            elif startup == "failed-bare":
+                await send({"type": "lifespan.startup.failed"})          # "message" is optional (ASGI lifespan spec)
             elif startup == "failed-nested":
                 # as frameworks built on anyio do: the message is sent from a child task, so the failure reaches the
                 # server wrapped in an exception group
@@ -453,7 +455,7 @@ def serve_cases(backend):
         fail("serve-raised", error=repr(sv.result["error"]))
 
     # 2./3. startup failed / timed out: abort with an error, nothing served
-    for kind, cfgkw in (("failed", {}), ("failed-nested", {}), ("hang", {"startup_timeout": 0.3})):
+    for kind, cfgkw in (("failed", {}), ("failed-bare", {}), ("failed-nested", {}), ("hang", {"startup_timeout": 0.3})):
         ev = []
         sv = Served(backend, lifespan_app(ev, startup=kind), **cfgkw)
         sv.thread.join(3.0)
